@@ -46,7 +46,7 @@ m = {
                  "kind_free_text": "pgregory.net/rapid v1.3.0 property-based testing (generators, t.Repeat state machines, shrinking) driving in-process packages, the real client binaries and an in-process server built from /repo; Go native fuzzing (go test -fuzz) in the thorough tier for byte-level targets; small-scope exhaustive enumeration where the space is finite"}],
     "checks": checks,
     "not_applicable": na,
-    "notes": "Driver: ./vcheck <ID> quick|thorough; exit 0 held / 1 VIOLATION / 2 inconclusive. VERIF_SEED is mapped to -rapid.seed (0 -> 1; shard i uses seed*1000+i+1). known_findings.txt lists repaired (fixed:) and open (known:) genuine defects.",
+    "notes": "Driver: ./vcheck <ID> quick|thorough; exit 0 held / 1 VIOLATION / 2 inconclusive. VERIF_SEED is mapped to -rapid.seed (0 -> 1; shard i of VERIF_SEED s uses s*2^43 + i*2^37 + 1, because rapid derives case k from seed + k(k+1)/2). known_findings.txt lists repaired (fixed:) and open (known:) genuine defects.",
 }
 json.dump(m, open("/verif/MANIFEST.json", "w"), indent=1)
 print("MANIFEST.json written: %d checks, %d not_applicable" % (len(checks), len(na)))
